@@ -5,7 +5,7 @@ from ..util import stream
 
 PROP = "C18"
 LEVEL = "exploration"
-N = {"quick": 2500, "thorough": 60000}
+N = {"quick": 6000, "thorough": 120000}
 RULE = ("seeded environment configuration (single env: instance x 4 graph builders x feature-observer configs incl. "
         "feature-type subsets x 2 rewards x updater options x filter x use_padding; multi env: generator ranges, "
         "recirculation, machines_per_operation, non-default updater / reward / initializer) x 1-3 episodes of legal "
